@@ -18,6 +18,11 @@ fn main() {
         };
         std::process::exit(engine::replay_file(&all, path));
     }
+    if args.first().map(String::as_str) == Some("--emit-seeds") {
+        let dir = args.get(1).cloned().unwrap_or_else(|| "/verif/fuzz/seeds".to_string());
+        props::emit_fuzz_seeds(&dir, 48);
+        return;
+    }
     if args.first().map(String::as_str) == Some("--list") {
         for p in &all {
             for s in &p.subs {
